@@ -126,6 +126,47 @@ def signature_in_context(form, other):
     return cfs(form, ren)
 
 
+def is_cyclic(x, limit=200000):
+    """True if the operand graph reachable from an expression / form contains a cycle
+    (a corrupted node that is its own descendant).  Iterative three-colour DFS."""
+    roots = []
+    if isinstance(x, Form):
+        roots = [itg.integrand() for itg in x.integrals()]
+    elif isinstance(x, Expr):
+        roots = [x]
+    state = {}
+    n = 0
+    for r in roots:
+        stack = [(r, iter(getattr(r, "ufl_operands", ())))]
+        state[id(r)] = 1
+        while stack:
+            node, it = stack[-1]
+            n += 1
+            if n > limit:
+                return True
+            try:
+                c = next(it)
+            except StopIteration:
+                state[id(node)] = 2
+                stack.pop()
+                continue
+            st = state.get(id(c))
+            if st == 1:
+                return True
+            if st is None:
+                state[id(c)] = 1
+                stack.append((c, iter(getattr(c, "ufl_operands", ()))))
+    return False
+
+
+def reapply_root(e):
+    """Apply the (single-operand) operator at the root of ``e`` to ``e`` once more, through
+    the public constructor: abs(abs(f)), conj(conj(f)), transpose(transpose(A)), ..."""
+    if not isinstance(e, Expr) or e._ufl_is_terminal_ or len(e.ufl_operands) != 1:
+        raise Skip("reapply")
+    return type(e)(e)
+
+
 def fd_touch(fd):
     """Read the public attributes of FormData (lazily computed ones included)."""
     out = []
